@@ -81,6 +81,21 @@ def gen_top(rng, n=None, kind=None, decorate=None, repeated=False, multi_res=Non
         steps = rng.integers(1, 6, n)
         nums = [int(x) for x in (int(rng.integers(1, 300)) + np.cumsum(steps))]
     classes.add('numbering:' + numbering)
+    if n >= 100:
+        # two different bonds whose atom numbers, written one after the other, give the same string: (11, 12) / (1, 112)
+        seen, hit = {}, None
+        for a in range(n):
+            for b in range(a + 1, n):
+                key = f'{nums[a]}{nums[b]}'
+                if key in seen and seen[key] != (a, b):
+                    hit = (seen[key], (a, b))
+                    break
+                seen[key] = (a, b)
+            if hit:
+                break
+        if hit:
+            edges = sorted(set(edges) | {hit[0], hit[1]})
+            classes.add('colliding-number-strings')
     # residues
     multi_res = bool(rng.random() < 0.4 and n >= 2) if multi_res is None else (multi_res and n >= 2)
     if multi_res:
